@@ -160,9 +160,9 @@ Print Assumptions repr_analysis_exact.
 
 (* repr_safe: if the analysis accepts a program for the allowed dtypes then, for ANY
    combination of allowed input dtypes and ANY input values, the run completes: no in-place
-   operation violates the casting rule, no NaN is stored into an integer array, no arithmetic
-   is carried out in an integer dtype, no lossy store, no write through a conditionally
-   shared buffer *)
+   operation violates the casting rule, no NaN is stored into an integer array, every
+   add, subtract, multiply, power is carried out in float64 (never in an integer dtype, never in float16/float32),
+   no lossy store, no write through a conditionally shared buffer *)
 Theorem repr_safe : forall V fop wrap cast ffun kfun vnan oval p n allowed,
   analyze p n allowed = true ->
   forall ins : list (dt * V), length ins = n -> Forall (fun x => In (fst x) allowed) ins ->
